@@ -178,37 +178,31 @@ Inductive sel : Type :=
 
 End Conformers.
 
-(* conformers.py:180-191  what prune_on_rmsd does with its rmsd_tol ARGUMENT (only reached for len >= 2):
+(* conformers.py:183-193  what prune_on_rmsd does with its rmsd_tol ARGUMENT (only reached for len >= 2), as
+   repaired by `fix:` 5b3a1b1:
      rmsd_tol = Config.rmsd_threshold if rmsd_tol is None else rmsd_tol
-     if isinstance(rmsd_tol, float): rmsd_tol = Distance(rmsd_tol, "Å")      # Distance SUBCLASSES float
-     logger.info(f'... {rmsd_tol.to("ang")} ...')                            # int / numpy scalar: AttributeError
-     ... calc_heavy_atom_rmsd(...) < rmsd_tol                                # compares the raw number
-   so a Distance in any unit is relabelled as Å (its number is used as Å), and a non-float number raises. *)
+     if not isinstance(rmsd_tol, Distance): rmsd_tol = Distance(float(rmsd_tol), "Å")     # any number: Å assumed
+     rmsd_tol = float(rmsd_tol.to("Å"))                                                   # compare plain numbers in Å
+   (before the fix a non-float number raised AttributeError and a Distance in another unit was used as Å). *)
 Inductive tol_arg : Type :=
 | TNone                              (* None -> Config.rmsd_threshold (an Å Distance) *)
 | TFloat (x : Qc)                    (* a python float: Å assumed *)
-| TOther (x : Qc)                    (* int, numpy.float32, ...: a number that is not a float instance *)
+| TOther (x : Qc)                    (* int, numpy.float32, ...: float(x), Å assumed *)
 | TDistance (x : Qc) (to_ang : Qc).  (* Distance(x, unit) with 1 unit = to_ang Å *)
-Definition rmsd_tol_used (default : Qc) (t : tol_arg) : option Qc :=
-  match t with
-  | TNone => Some default
-  | TFloat x => Some x
-  | TOther _ => None                 (* AttributeError: no attribute 'to' *)
-  | TDistance x _ => Some x          (* unit dropped *)
-  end.
-Definition rmsd_tol_meant (default : Qc) (t : tol_arg) : Qc :=      (* the threshold in Å the caller asked for *)
+Definition rmsd_tol_used (default : Qc) (t : tol_arg) : Qc :=
   match t with
   | TNone => default
   | TFloat x => x
   | TOther x => x
-  | TDistance x f => (x * f)%Qc
+  | TDistance x f => (x * f)%Qc      (* .to("Å") *)
   end.
 Definition prune_on_rmsd_arg (A : Type) (d : A -> A -> Qc) (default : Qc) (t : tol_arg) (l : list A) : res A :=
   if length l <? 2 then Ok l                                        (* :173-178, before the tolerance is touched *)
-  else match rmsd_tol_used default t with
-       | Some tol => prune_on_rmsd A d tol l
-       | None => Crash
-       end.
+  else prune_on_rmsd A d (rmsd_tol_used default t) l.
+
+(* conformers.py:123-131  the e_tol ARGUMENT of prune_on_energy (`fix:` d348d0e): None -> 0.0 (no uniqueness
+   pruning: |dE| < 0 never holds), an Energy -> its value in Ha, a number -> Ha assumed *)
+Definition e_tol_used (o : option Qc) : Qc := match o with None => Q2Qc 0 | Some x => x end.
 
 
 (* species.py:1454-1520 find_lowest_energy_conformer, the selection part.  The ORDER of the calls is
